@@ -462,7 +462,8 @@ Proof.
 Qed.
 
 (* ================================================================== *)
-(* additivity: ntt (a + b) = ntt a + ntt b, intt likewise              *)
+(* linearity: ntt (a + b) = ntt a + ntt b, ntt (a - b) = ntt a - ntt b, *)
+(* intt likewise                                                        *)
 (* ================================================================== *)
 Ltac kspec :=
   repeat match goal with
@@ -474,52 +475,9 @@ Ltac cong_ring :=
   match goal with |- ?x mod q = ?y mod q => change (cong x y) end;
   strip_mods; apply cong_eq; ring.
 
-Lemma lin_ct_lo la lb ha hb z : 0 <= la < q -> 0 <= lb < q -> 0 <= ha < q -> 0 <= hb < q -> 0 <= z < q ->
-  k_add (k_add la lb) (k_mul z (k_add ha hb)) = k_add (k_add la (k_mul z ha)) (k_add lb (k_mul z hb)).
-Proof. intros. kspec. cong_ring. Qed.
-Lemma lin_ct_hi la lb ha hb z : 0 <= la < q -> 0 <= lb < q -> 0 <= ha < q -> 0 <= hb < q -> 0 <= z < q ->
-  k_sub (k_add la lb) (k_mul z (k_add ha hb)) = k_add (k_sub la (k_mul z ha)) (k_sub lb (k_mul z hb)).
-Proof. intros. kspec. cong_ring. Qed.
-Lemma lin_gs_lo la lb ha hb : 0 <= la < q -> 0 <= lb < q -> 0 <= ha < q -> 0 <= hb < q ->
-  k_add (k_add la lb) (k_add ha hb) = k_add (k_add la ha) (k_add lb hb).
-Proof. intros. kspec. cong_ring. Qed.
-Lemma lin_gs_hi la lb ha hb z : 0 <= la < q -> 0 <= lb < q -> 0 <= ha < q -> 0 <= hb < q -> 0 <= z < q ->
-  k_mul z (k_sub (k_add la lb) (k_add ha hb)) = k_add (k_mul z (k_sub la ha)) (k_mul z (k_sub lb hb)).
-Proof. intros. kspec. cong_ring. Qed.
-Lemma lin_mul x y z : 0 <= x < q -> 0 <= y < q -> 0 <= z < q ->
-  k_mul z (k_add x y) = k_add (k_mul z x) (k_mul z y).
-Proof. intros. kspec. cong_ring. Qed.
-
 Ltac inv_canon :=
   repeat match goal with H : canon (_ :: _) |- _ => inversion H; clear H; subst end;
   repeat match goal with H : Forall _ (_ :: _) |- _ => inversion H; clear H; subst end.
-
-Lemma block_lin_ct z : 0 <= z < q -> forall la lb ha hb,
-  length la = length lb -> length la = length ha -> length la = length hb ->
-  canon la -> canon lb -> canon ha -> canon hb ->
-  let ta := map (k_mul z) ha in let tb := map (k_mul z) hb in
-  let ts := map (k_mul z) (map2 k_add ha hb) in
-  map2 k_add (map2 k_add la lb) ts = map2 k_add (map2 k_add la ta) (map2 k_add lb tb) /\
-  map2 k_sub (map2 k_add la lb) ts = map2 k_add (map2 k_sub la ta) (map2 k_sub lb tb).
-Proof.
-  intros Hz. cbv zeta. induction la as [|a la IH]; intros lb ha hb L1 L2 L3 C1 C2 C3 C4;
-    destruct lb, ha, hb; simpl in L1, L2, L3; try discriminate; [split; reflexivity|].
-  inv_canon. destruct (IH lb ha hb) as [I1 I2]; try lia; auto.
-  cbn [map map2]. split; f_equal; auto using lin_ct_lo, lin_ct_hi.
-Qed.
-
-Lemma block_lin_gs z : 0 <= z < q -> forall la lb ha hb,
-  length la = length lb -> length la = length ha -> length la = length hb ->
-  canon la -> canon lb -> canon ha -> canon hb ->
-  map2 k_add (map2 k_add la lb) (map2 k_add ha hb) = map2 k_add (map2 k_add la ha) (map2 k_add lb hb) /\
-  map (k_mul z) (map2 k_sub (map2 k_add la lb) (map2 k_add ha hb)) =
-    map2 k_add (map (k_mul z) (map2 k_sub la ha)) (map (k_mul z) (map2 k_sub lb hb)).
-Proof.
-  intros Hz. induction la as [|a la IH]; intros lb ha hb L1 L2 L3 C1 C2 C3 C4;
-    destruct lb, ha, hb; simpl in L1, L2, L3; try discriminate; [split; reflexivity|].
-  inv_canon. destruct (IH lb ha hb) as [I1 I2]; try lia; auto.
-  cbn [map map2]. split; f_equal; auto using lin_gs_lo, lin_gs_hi.
-Qed.
 
 Lemma firstn_map2 {A B C} (f : A -> B -> C) n a b : firstn n (map2 f a b) = map2 f (firstn n a) (firstn n b).
 Proof. revert a b; induction n as [|n IH]; intros a b; [reflexivity|]. destruct a, b; try reflexivity. cbn [firstn map2]. f_equal. apply IH. Qed.
@@ -534,151 +492,313 @@ Lemma map2_app {A B C} (f : A -> B -> C) a1 a2 b1 b2 : length a1 = length b1 ->
   map2 f (a1 ++ a2) (b1 ++ b2) = map2 f a1 b1 ++ map2 f a2 b2.
 Proof. revert b1; induction a1 as [|x a1 IH]; intros b1 H; destruct b1; simpl in *; try discriminate; auto. f_equal. apply IH. lia. Qed.
 
-Lemma ntt_blocks_add nb : forall len m a b,
-  length a = (nb * (2 * len))%nat -> length b = (nb * (2 * len))%nat -> canon a -> canon b ->
-  ntt_blocks nb len m (map2 k_add a b) = map2 k_add (ntt_blocks nb len m a) (ntt_blocks nb len m b).
-Proof.
-  induction nb as [|nb IH]; intros len m a b La Lb Ca Cb; [reflexivity|].
-  cbn [ntt_blocks]. rewrite !firstn_map2, !skipn_map2, firstn_map2.
-  set (la := firstn len a). set (ha := firstn len (skipn len a)).
-  set (lb := firstn len b). set (hb := firstn len (skipn len b)).
-  assert (L1 : length la = len) by (unfold la; rewrite firstn_length; lia).
-  assert (L2 : length ha = len) by (unfold ha; rewrite firstn_length, skipn_length; lia).
-  assert (L3 : length lb = len) by (unfold lb; rewrite firstn_length; lia).
-  assert (L4 : length hb = len) by (unfold hb; rewrite firstn_length, skipn_length; lia).
-  assert (K1 : canon la) by (unfold la; auto using canon_firstn).
-  assert (K2 : canon lb) by (unfold lb; auto using canon_firstn).
-  assert (K3 : canon ha) by (unfold ha; auto using canon_firstn, canon_skipn).
-  assert (K4 : canon hb) by (unfold hb; auto using canon_firstn, canon_skipn).
-  destruct (block_lin_ct (zeta_at (S m)) (zeta_at_range _) la lb ha hb) as [P1 P2]; try lia; auto.
-  cbv zeta in P1, P2. rewrite P1, P2.
-  rewrite IH by (rewrite ?skipn_length; auto using canon_skipn; lia).
-  rewrite !map2_app; [reflexivity | | ]; rewrite !map2_length; rewrite ?map_length; lia.
-Qed.
+Definition lin_ok (f : Z -> Z -> Z) : Prop :=
+  (forall x y, 0 <= x < q -> 0 <= y < q -> 0 <= f x y < q) /\
+  (forall la lb ha hb z, 0 <= la < q -> 0 <= lb < q -> 0 <= ha < q -> 0 <= hb < q -> 0 <= z < q ->
+    k_add (f la lb) (k_mul z (f ha hb)) = f (k_add la (k_mul z ha)) (k_add lb (k_mul z hb))) /\
+  (forall la lb ha hb z, 0 <= la < q -> 0 <= lb < q -> 0 <= ha < q -> 0 <= hb < q -> 0 <= z < q ->
+    k_sub (f la lb) (k_mul z (f ha hb)) = f (k_sub la (k_mul z ha)) (k_sub lb (k_mul z hb))) /\
+  (forall la lb ha hb, 0 <= la < q -> 0 <= lb < q -> 0 <= ha < q -> 0 <= hb < q ->
+    k_add (f la lb) (f ha hb) = f (k_add la ha) (k_add lb hb)) /\
+  (forall la lb ha hb z, 0 <= la < q -> 0 <= lb < q -> 0 <= ha < q -> 0 <= hb < q -> 0 <= z < q ->
+    k_mul z (k_sub (f la lb) (f ha hb)) = f (k_mul z (k_sub la ha)) (k_mul z (k_sub lb hb))) /\
+  (forall x y z, 0 <= x < q -> 0 <= y < q -> 0 <= z < q ->
+    k_mul z (f x y) = f (k_mul z x) (k_mul z y)).
 
-Lemma intt_blocks_add nb : forall len m a b,
-  length a = (nb * (2 * len))%nat -> length b = (nb * (2 * len))%nat -> canon a -> canon b ->
-  intt_blocks nb len m (map2 k_add a b) = map2 k_add (intt_blocks nb len m a) (intt_blocks nb len m b).
-Proof.
-  induction nb as [|nb IH]; intros len m a b La Lb Ca Cb; [reflexivity|].
-  cbn [intt_blocks]. rewrite !firstn_map2, !skipn_map2, firstn_map2.
-  set (la := firstn len a). set (ha := firstn len (skipn len a)).
-  set (lb := firstn len b). set (hb := firstn len (skipn len b)).
-  assert (L1 : length la = len) by (unfold la; rewrite firstn_length; lia).
-  assert (L2 : length ha = len) by (unfold ha; rewrite firstn_length, skipn_length; lia).
-  assert (L3 : length lb = len) by (unfold lb; rewrite firstn_length; lia).
-  assert (L4 : length hb = len) by (unfold hb; rewrite firstn_length, skipn_length; lia).
-  assert (K1 : canon la) by (unfold la; auto using canon_firstn).
-  assert (K2 : canon lb) by (unfold lb; auto using canon_firstn).
-  assert (K3 : canon ha) by (unfold ha; auto using canon_firstn, canon_skipn).
-  assert (K4 : canon hb) by (unfold hb; auto using canon_firstn, canon_skipn).
-  destruct (block_lin_gs (k_neg (zeta_at (Nat.pred m))) (k_neg_range _ (zeta_at_range _)) la lb ha hb) as [P1 P2]; try lia; auto.
-  rewrite P1, P2.
-  rewrite IH by (rewrite ?skipn_length; auto using canon_skipn; lia).
-  rewrite !map2_app; [reflexivity | | ]; rewrite ?map_length, !map2_length; rewrite ?map_length; lia.
-Qed.
+Section Linear.
+  (* f is k_add or k_sub; the hypothesis is kept folded so that lia does not look into it *)
+  Variable f : Z -> Z -> Z.
+  Hypothesis HF : lin_ok f.
+  Ltac open_HF := destruct HF as (f_range & f_ct_lo & f_ct_hi & f_gs_lo & f_gs_hi & f_mul).
 
-Lemma padd_props a b : length a = length b -> canon a -> canon b ->
-  length (padd a b) = length a /\ canon (padd a b).
-Proof. intros L Ca Cb. unfold padd. split; [apply map2_length; auto | apply canon_map2_add; auto]. Qed.
+  Lemma canon_map2_f a b : canon a -> canon b -> canon (map2 f a b).
+  Proof.
+    open_HF.
+    intros Ha. revert b. induction Ha as [|x a Hx Ha IH]; intros b Hb; destruct b as [|y b]; try constructor.
+    - inversion Hb; subst. apply f_range; auto.
+    - inversion Hb; subst. apply IH; auto.
+  Qed.
+
+  Lemma block_lin_ct z : 0 <= z < q -> forall la lb ha hb,
+    length la = length lb -> length la = length ha -> length la = length hb ->
+    canon la -> canon lb -> canon ha -> canon hb ->
+    map2 k_add (map2 f la lb) (map (k_mul z) (map2 f ha hb)) =
+      map2 f (map2 k_add la (map (k_mul z) ha)) (map2 k_add lb (map (k_mul z) hb)) /\
+    map2 k_sub (map2 f la lb) (map (k_mul z) (map2 f ha hb)) =
+      map2 f (map2 k_sub la (map (k_mul z) ha)) (map2 k_sub lb (map (k_mul z) hb)).
+  Proof.
+    intros Hz. induction la as [|a la IH]; intros lb ha hb L1 L2 L3 C1 C2 C3 C4;
+      destruct lb, ha, hb; simpl in L1, L2, L3; try discriminate; [split; reflexivity|].
+    inv_canon. destruct (IH lb ha hb) as [I1 I2]; try lia; auto.
+    open_HF. cbn [map map2]. split; f_equal; auto.
+  Qed.
+
+  Lemma block_lin_gs z : 0 <= z < q -> forall la lb ha hb,
+    length la = length lb -> length la = length ha -> length la = length hb ->
+    canon la -> canon lb -> canon ha -> canon hb ->
+    map2 k_add (map2 f la lb) (map2 f ha hb) = map2 f (map2 k_add la ha) (map2 k_add lb hb) /\
+    map (k_mul z) (map2 k_sub (map2 f la lb) (map2 f ha hb)) =
+      map2 f (map (k_mul z) (map2 k_sub la ha)) (map (k_mul z) (map2 k_sub lb hb)).
+  Proof.
+    intros Hz. induction la as [|a la IH]; intros lb ha hb L1 L2 L3 C1 C2 C3 C4;
+      destruct lb, ha, hb; simpl in L1, L2, L3; try discriminate; [split; reflexivity|].
+    inv_canon. destruct (IH lb ha hb) as [I1 I2]; try lia; auto.
+    open_HF. cbn [map map2]. split; f_equal; auto.
+  Qed.
+
+  Lemma ntt_blocks_lin nb : forall len m a b,
+    length a = (nb * (2 * len))%nat -> length b = (nb * (2 * len))%nat -> canon a -> canon b ->
+    ntt_blocks nb len m (map2 f a b) = map2 f (ntt_blocks nb len m a) (ntt_blocks nb len m b).
+  Proof.
+    induction nb as [|nb IH]; intros len m a b La Lb Ca Cb; [reflexivity|].
+    cbn [ntt_blocks]. rewrite !firstn_map2, !skipn_map2, firstn_map2.
+    set (la := firstn len a). set (ha := firstn len (skipn len a)).
+    set (lb := firstn len b). set (hb := firstn len (skipn len b)).
+    assert (L1 : length la = len) by (unfold la; rewrite firstn_length; lia).
+    assert (L2 : length ha = len) by (unfold ha; rewrite firstn_length, skipn_length; lia).
+    assert (L3 : length lb = len) by (unfold lb; rewrite firstn_length; lia).
+    assert (L4 : length hb = len) by (unfold hb; rewrite firstn_length, skipn_length; lia).
+    assert (K1 : canon la) by (unfold la; auto using canon_firstn).
+    assert (K2 : canon lb) by (unfold lb; auto using canon_firstn).
+    assert (K3 : canon ha) by (unfold ha; auto using canon_firstn, canon_skipn).
+    assert (K4 : canon hb) by (unfold hb; auto using canon_firstn, canon_skipn).
+    destruct (block_lin_ct (zeta_at (S m)) (zeta_at_range _) la lb ha hb) as [P1 P2]; try lia; auto.
+    rewrite P1, P2.
+    rewrite IH by (rewrite ?skipn_length; auto using canon_skipn; lia).
+    rewrite !map2_app; [reflexivity | | ]; rewrite !map2_length; rewrite ?map_length; lia.
+  Qed.
+
+  Lemma intt_blocks_lin nb : forall len m a b,
+    length a = (nb * (2 * len))%nat -> length b = (nb * (2 * len))%nat -> canon a -> canon b ->
+    intt_blocks nb len m (map2 f a b) = map2 f (intt_blocks nb len m a) (intt_blocks nb len m b).
+  Proof.
+    induction nb as [|nb IH]; intros len m a b La Lb Ca Cb; [reflexivity|].
+    cbn [intt_blocks]. rewrite !firstn_map2, !skipn_map2, firstn_map2.
+    set (la := firstn len a). set (ha := firstn len (skipn len a)).
+    set (lb := firstn len b). set (hb := firstn len (skipn len b)).
+    assert (L1 : length la = len) by (unfold la; rewrite firstn_length; lia).
+    assert (L2 : length ha = len) by (unfold ha; rewrite firstn_length, skipn_length; lia).
+    assert (L3 : length lb = len) by (unfold lb; rewrite firstn_length; lia).
+    assert (L4 : length hb = len) by (unfold hb; rewrite firstn_length, skipn_length; lia).
+    assert (K1 : canon la) by (unfold la; auto using canon_firstn).
+    assert (K2 : canon lb) by (unfold lb; auto using canon_firstn).
+    assert (K3 : canon ha) by (unfold ha; auto using canon_firstn, canon_skipn).
+    assert (K4 : canon hb) by (unfold hb; auto using canon_firstn, canon_skipn).
+    destruct (block_lin_gs (k_neg (zeta_at (Nat.pred m))) (k_neg_range _ (zeta_at_range _)) la lb ha hb) as [P1 P2]; try lia; auto.
+    rewrite P1, P2.
+    rewrite IH by (rewrite ?skipn_length; auto using canon_skipn; lia).
+    rewrite !map2_app; [reflexivity | | ]; rewrite ?map_length, !map2_length; rewrite ?map_length; lia.
+  Qed.
+
+  Lemma map_mul_lin z : 0 <= z < q -> forall a b, length a = length b -> canon a -> canon b ->
+    map (k_mul z) (map2 f a b) = map2 f (map (k_mul z) a) (map (k_mul z) b).
+  Proof.
+    intros Hz. induction a as [|x a IH]; intros b L Ca Cb; destruct b; simpl in L; try discriminate; [reflexivity|].
+    inv_canon. cbn [map map2]. f_equal; [open_HF; apply f_mul; auto | apply IH; auto].
+  Qed.
+
+  Theorem ntt_lin a b : length a = 256%nat -> length b = 256%nat -> canon a -> canon b ->
+    ntt (map2 f a b) = map2 f (ntt a) (ntt b).
+  Proof.
+    intros La Lb Ca Cb. rewrite !ntt_unfold.
+    set (a0 := a) in *. set (b0 := b) in *.
+    assert (A0 : length a0 = 256%nat) by exact La. assert (B0 : length b0 = 256%nat) by exact Lb.
+    assert (A0c : canon a0) by exact Ca. assert (B0c : canon b0) by exact Cb.
+    rewrite (ntt_blocks_lin 1 128 0 a0 b0) by (auto; rewrite ?A0, ?B0; reflexivity).
+    destruct (ntt_blocks_props 1 128 0 a0) as [A1' A1c]; [rewrite A0; reflexivity | auto |].
+    destruct (ntt_blocks_props 1 128 0 b0) as [B1' B1c]; [rewrite B0; reflexivity | auto |].
+    set (a1 := ntt_blocks 1 128 0 a0) in *. set (b1 := ntt_blocks 1 128 0 b0) in *.
+    assert (A1 : length a1 = 256%nat) by (rewrite A1'; exact A0).
+    assert (B1 : length b1 = 256%nat) by (rewrite B1'; exact B0).
+    rewrite (ntt_blocks_lin 2 64 1 a1 b1) by (auto; rewrite ?A1, ?B1; reflexivity).
+    destruct (ntt_blocks_props 2 64 1 a1) as [A2' A2c]; [rewrite A1; reflexivity | auto |].
+    destruct (ntt_blocks_props 2 64 1 b1) as [B2' B2c]; [rewrite B1; reflexivity | auto |].
+    set (a2 := ntt_blocks 2 64 1 a1) in *. set (b2 := ntt_blocks 2 64 1 b1) in *.
+    assert (A2 : length a2 = 256%nat) by (rewrite A2'; exact A1).
+    assert (B2 : length b2 = 256%nat) by (rewrite B2'; exact B1).
+    rewrite (ntt_blocks_lin 4 32 3 a2 b2) by (auto; rewrite ?A2, ?B2; reflexivity).
+    destruct (ntt_blocks_props 4 32 3 a2) as [A3' A3c]; [rewrite A2; reflexivity | auto |].
+    destruct (ntt_blocks_props 4 32 3 b2) as [B3' B3c]; [rewrite B2; reflexivity | auto |].
+    set (a3 := ntt_blocks 4 32 3 a2) in *. set (b3 := ntt_blocks 4 32 3 b2) in *.
+    assert (A3 : length a3 = 256%nat) by (rewrite A3'; exact A2).
+    assert (B3 : length b3 = 256%nat) by (rewrite B3'; exact B2).
+    rewrite (ntt_blocks_lin 8 16 7 a3 b3) by (auto; rewrite ?A3, ?B3; reflexivity).
+    destruct (ntt_blocks_props 8 16 7 a3) as [A4' A4c]; [rewrite A3; reflexivity | auto |].
+    destruct (ntt_blocks_props 8 16 7 b3) as [B4' B4c]; [rewrite B3; reflexivity | auto |].
+    set (a4 := ntt_blocks 8 16 7 a3) in *. set (b4 := ntt_blocks 8 16 7 b3) in *.
+    assert (A4 : length a4 = 256%nat) by (rewrite A4'; exact A3).
+    assert (B4 : length b4 = 256%nat) by (rewrite B4'; exact B3).
+    rewrite (ntt_blocks_lin 16 8 15 a4 b4) by (auto; rewrite ?A4, ?B4; reflexivity).
+    destruct (ntt_blocks_props 16 8 15 a4) as [A5' A5c]; [rewrite A4; reflexivity | auto |].
+    destruct (ntt_blocks_props 16 8 15 b4) as [B5' B5c]; [rewrite B4; reflexivity | auto |].
+    set (a5 := ntt_blocks 16 8 15 a4) in *. set (b5 := ntt_blocks 16 8 15 b4) in *.
+    assert (A5 : length a5 = 256%nat) by (rewrite A5'; exact A4).
+    assert (B5 : length b5 = 256%nat) by (rewrite B5'; exact B4).
+    rewrite (ntt_blocks_lin 32 4 31 a5 b5) by (auto; rewrite ?A5, ?B5; reflexivity).
+    destruct (ntt_blocks_props 32 4 31 a5) as [A6' A6c]; [rewrite A5; reflexivity | auto |].
+    destruct (ntt_blocks_props 32 4 31 b5) as [B6' B6c]; [rewrite B5; reflexivity | auto |].
+    set (a6 := ntt_blocks 32 4 31 a5) in *. set (b6 := ntt_blocks 32 4 31 b5) in *.
+    assert (A6 : length a6 = 256%nat) by (rewrite A6'; exact A5).
+    assert (B6 : length b6 = 256%nat) by (rewrite B6'; exact B5).
+    rewrite (ntt_blocks_lin 64 2 63 a6 b6) by (auto; rewrite ?A6, ?B6; reflexivity).
+    destruct (ntt_blocks_props 64 2 63 a6) as [A7' A7c]; [rewrite A6; reflexivity | auto |].
+    destruct (ntt_blocks_props 64 2 63 b6) as [B7' B7c]; [rewrite B6; reflexivity | auto |].
+    set (a7 := ntt_blocks 64 2 63 a6) in *. set (b7 := ntt_blocks 64 2 63 b6) in *.
+    assert (A7 : length a7 = 256%nat) by (rewrite A7'; exact A6).
+    assert (B7 : length b7 = 256%nat) by (rewrite B7'; exact B6).
+    rewrite (ntt_blocks_lin 128 1 127 a7 b7) by (auto; rewrite ?A7, ?B7; reflexivity).
+    destruct (ntt_blocks_props 128 1 127 a7) as [A8' A8c]; [rewrite A7; reflexivity | auto |].
+    destruct (ntt_blocks_props 128 1 127 b7) as [B8' B8c]; [rewrite B7; reflexivity | auto |].
+    set (a8 := ntt_blocks 128 1 127 a7) in *. set (b8 := ntt_blocks 128 1 127 b7) in *.
+    assert (A8 : length a8 = 256%nat) by (rewrite A8'; exact A7).
+    assert (B8 : length b8 = 256%nat) by (rewrite B8'; exact B7).
+    reflexivity.
+  Qed.
+
+  Theorem intt_lin a b : length a = 256%nat -> length b = 256%nat -> canon a -> canon b ->
+    intt (map2 f a b) = map2 f (intt a) (intt b).
+  Proof.
+    intros La Lb Ca Cb. rewrite !intt_unfold.
+    set (a0 := a) in *. set (b0 := b) in *.
+    assert (A0 : length a0 = 256%nat) by exact La. assert (B0 : length b0 = 256%nat) by exact Lb.
+    assert (A0c : canon a0) by exact Ca. assert (B0c : canon b0) by exact Cb.
+    rewrite (intt_blocks_lin 128 1 256 a0 b0) by (auto; rewrite ?A0, ?B0; reflexivity).
+    destruct (intt_blocks_props 128 1 256 a0) as [A1' A1c]; [rewrite A0; reflexivity | auto |].
+    destruct (intt_blocks_props 128 1 256 b0) as [B1' B1c]; [rewrite B0; reflexivity | auto |].
+    set (a1 := intt_blocks 128 1 256 a0) in *. set (b1 := intt_blocks 128 1 256 b0) in *.
+    assert (A1 : length a1 = 256%nat) by (rewrite A1'; exact A0).
+    assert (B1 : length b1 = 256%nat) by (rewrite B1'; exact B0).
+    rewrite (intt_blocks_lin 64 2 128 a1 b1) by (auto; rewrite ?A1, ?B1; reflexivity).
+    destruct (intt_blocks_props 64 2 128 a1) as [A2' A2c]; [rewrite A1; reflexivity | auto |].
+    destruct (intt_blocks_props 64 2 128 b1) as [B2' B2c]; [rewrite B1; reflexivity | auto |].
+    set (a2 := intt_blocks 64 2 128 a1) in *. set (b2 := intt_blocks 64 2 128 b1) in *.
+    assert (A2 : length a2 = 256%nat) by (rewrite A2'; exact A1).
+    assert (B2 : length b2 = 256%nat) by (rewrite B2'; exact B1).
+    rewrite (intt_blocks_lin 32 4 64 a2 b2) by (auto; rewrite ?A2, ?B2; reflexivity).
+    destruct (intt_blocks_props 32 4 64 a2) as [A3' A3c]; [rewrite A2; reflexivity | auto |].
+    destruct (intt_blocks_props 32 4 64 b2) as [B3' B3c]; [rewrite B2; reflexivity | auto |].
+    set (a3 := intt_blocks 32 4 64 a2) in *. set (b3 := intt_blocks 32 4 64 b2) in *.
+    assert (A3 : length a3 = 256%nat) by (rewrite A3'; exact A2).
+    assert (B3 : length b3 = 256%nat) by (rewrite B3'; exact B2).
+    rewrite (intt_blocks_lin 16 8 32 a3 b3) by (auto; rewrite ?A3, ?B3; reflexivity).
+    destruct (intt_blocks_props 16 8 32 a3) as [A4' A4c]; [rewrite A3; reflexivity | auto |].
+    destruct (intt_blocks_props 16 8 32 b3) as [B4' B4c]; [rewrite B3; reflexivity | auto |].
+    set (a4 := intt_blocks 16 8 32 a3) in *. set (b4 := intt_blocks 16 8 32 b3) in *.
+    assert (A4 : length a4 = 256%nat) by (rewrite A4'; exact A3).
+    assert (B4 : length b4 = 256%nat) by (rewrite B4'; exact B3).
+    rewrite (intt_blocks_lin 8 16 16 a4 b4) by (auto; rewrite ?A4, ?B4; reflexivity).
+    destruct (intt_blocks_props 8 16 16 a4) as [A5' A5c]; [rewrite A4; reflexivity | auto |].
+    destruct (intt_blocks_props 8 16 16 b4) as [B5' B5c]; [rewrite B4; reflexivity | auto |].
+    set (a5 := intt_blocks 8 16 16 a4) in *. set (b5 := intt_blocks 8 16 16 b4) in *.
+    assert (A5 : length a5 = 256%nat) by (rewrite A5'; exact A4).
+    assert (B5 : length b5 = 256%nat) by (rewrite B5'; exact B4).
+    rewrite (intt_blocks_lin 4 32 8 a5 b5) by (auto; rewrite ?A5, ?B5; reflexivity).
+    destruct (intt_blocks_props 4 32 8 a5) as [A6' A6c]; [rewrite A5; reflexivity | auto |].
+    destruct (intt_blocks_props 4 32 8 b5) as [B6' B6c]; [rewrite B5; reflexivity | auto |].
+    set (a6 := intt_blocks 4 32 8 a5) in *. set (b6 := intt_blocks 4 32 8 b5) in *.
+    assert (A6 : length a6 = 256%nat) by (rewrite A6'; exact A5).
+    assert (B6 : length b6 = 256%nat) by (rewrite B6'; exact B5).
+    rewrite (intt_blocks_lin 2 64 4 a6 b6) by (auto; rewrite ?A6, ?B6; reflexivity).
+    destruct (intt_blocks_props 2 64 4 a6) as [A7' A7c]; [rewrite A6; reflexivity | auto |].
+    destruct (intt_blocks_props 2 64 4 b6) as [B7' B7c]; [rewrite B6; reflexivity | auto |].
+    set (a7 := intt_blocks 2 64 4 a6) in *. set (b7 := intt_blocks 2 64 4 b6) in *.
+    assert (A7 : length a7 = 256%nat) by (rewrite A7'; exact A6).
+    assert (B7 : length b7 = 256%nat) by (rewrite B7'; exact B6).
+    rewrite (intt_blocks_lin 1 128 2 a7 b7) by (auto; rewrite ?A7, ?B7; reflexivity).
+    destruct (intt_blocks_props 1 128 2 a7) as [A8' A8c]; [rewrite A7; reflexivity | auto |].
+    destruct (intt_blocks_props 1 128 2 b7) as [B8' B8c]; [rewrite B7; reflexivity | auto |].
+    set (a8 := intt_blocks 1 128 2 a7) in *. set (b8 := intt_blocks 1 128 2 b7) in *.
+    assert (A8 : length a8 = 256%nat) by (rewrite A8'; exact A7).
+    assert (B8 : length b8 = 256%nat) by (rewrite B8'; exact B7).
+    apply map_mul_lin; auto; [unfold q; vm_compute; split; congruence | rewrite A8, B8; reflexivity].
+  Qed.
+End Linear.
+
+Lemma k_add_range x y : 0 <= x < q -> 0 <= y < q -> 0 <= k_add x y < q.
+Proof. intros. rewrite k_add_spec by auto. apply mod_q_range. Qed.
+Lemma k_sub_range x y : 0 <= x < q -> 0 <= y < q -> 0 <= k_sub x y < q.
+Proof. intros. rewrite k_sub_spec by auto. apply mod_q_range. Qed.
+Lemma k_mul_range x y : 0 <= x < q -> 0 <= y < q -> 0 <= k_mul x y < q.
+Proof. intros. rewrite k_mul_spec by auto. apply mod_q_range. Qed.
+
+Lemma lin_ok_add : lin_ok k_add.
+Proof. unfold lin_ok. repeat apply conj; intros; try (apply k_add_range; auto); kspec; cong_ring. Qed.
+Lemma lin_ok_sub : lin_ok k_sub.
+Proof. unfold lin_ok. repeat apply conj; intros; try (apply k_sub_range; auto); kspec; cong_ring. Qed.
 
 Theorem ntt_add a b : length a = 256%nat -> length b = 256%nat -> canon a -> canon b ->
   ntt (padd a b) = padd (ntt a) (ntt b).
-Proof.
-  intros La Lb Ca Cb. rewrite !ntt_unfold. unfold padd.
-  destruct (ntt_blocks_props 1 128 0 a) as [A1 A1c]; [rewrite La; reflexivity | auto |].
-  destruct (ntt_blocks_props 1 128 0 b) as [B1 B1c]; [rewrite Lb; reflexivity | auto |].
-  rewrite (ntt_blocks_add 1 128 0 a b) by (auto; rewrite ?La, ?Lb; reflexivity).
-  set (a1 := ntt_blocks 1 128 0 a) in *. set (b1 := ntt_blocks 1 128 0 b) in *.
-  destruct (ntt_blocks_props 2 64 1 a1) as [A2 A2c]; [rewrite A1, La; reflexivity | auto |].
-  destruct (ntt_blocks_props 2 64 1 b1) as [B2 B2c]; [rewrite B1, Lb; reflexivity | auto |].
-  rewrite (ntt_blocks_add 2 64 1 a1 b1) by (auto; rewrite ?A1, ?B1, ?La, ?Lb; reflexivity).
-  set (a2 := ntt_blocks 2 64 1 a1) in *. set (b2 := ntt_blocks 2 64 1 b1) in *.
-  destruct (ntt_blocks_props 4 32 3 a2) as [A3 A3c]; [rewrite A2, A1, La; reflexivity | auto |].
-  destruct (ntt_blocks_props 4 32 3 b2) as [B3 B3c]; [rewrite B2, B1, Lb; reflexivity | auto |].
-  rewrite (ntt_blocks_add 4 32 3 a2 b2) by (auto; rewrite ?A2, ?B2, ?A1, ?B1, ?La, ?Lb; reflexivity).
-  set (a3 := ntt_blocks 4 32 3 a2) in *. set (b3 := ntt_blocks 4 32 3 b2) in *.
-  destruct (ntt_blocks_props 8 16 7 a3) as [A4 A4c]; [rewrite A3, A2, A1, La; reflexivity | auto |].
-  destruct (ntt_blocks_props 8 16 7 b3) as [B4 B4c]; [rewrite B3, B2, B1, Lb; reflexivity | auto |].
-  rewrite (ntt_blocks_add 8 16 7 a3 b3) by (auto; rewrite ?A3, ?B3, ?A2, ?B2, ?A1, ?B1, ?La, ?Lb; reflexivity).
-  set (a4 := ntt_blocks 8 16 7 a3) in *. set (b4 := ntt_blocks 8 16 7 b3) in *.
-  destruct (ntt_blocks_props 16 8 15 a4) as [A5 A5c]; [rewrite A4, A3, A2, A1, La; reflexivity | auto |].
-  destruct (ntt_blocks_props 16 8 15 b4) as [B5 B5c]; [rewrite B4, B3, B2, B1, Lb; reflexivity | auto |].
-  rewrite (ntt_blocks_add 16 8 15 a4 b4) by (auto; rewrite ?A4, ?B4, ?A3, ?B3, ?A2, ?B2, ?A1, ?B1, ?La, ?Lb; reflexivity).
-  set (a5 := ntt_blocks 16 8 15 a4) in *. set (b5 := ntt_blocks 16 8 15 b4) in *.
-  destruct (ntt_blocks_props 32 4 31 a5) as [A6 A6c]; [rewrite A5, A4, A3, A2, A1, La; reflexivity | auto |].
-  destruct (ntt_blocks_props 32 4 31 b5) as [B6 B6c]; [rewrite B5, B4, B3, B2, B1, Lb; reflexivity | auto |].
-  rewrite (ntt_blocks_add 32 4 31 a5 b5) by (auto; rewrite ?A5, ?B5, ?A4, ?B4, ?A3, ?B3, ?A2, ?B2, ?A1, ?B1, ?La, ?Lb; reflexivity).
-  set (a6 := ntt_blocks 32 4 31 a5) in *. set (b6 := ntt_blocks 32 4 31 b5) in *.
-  destruct (ntt_blocks_props 64 2 63 a6) as [A7 A7c]; [rewrite A6, A5, A4, A3, A2, A1, La; reflexivity | auto |].
-  destruct (ntt_blocks_props 64 2 63 b6) as [B7 B7c]; [rewrite B6, B5, B4, B3, B2, B1, Lb; reflexivity | auto |].
-  rewrite (ntt_blocks_add 64 2 63 a6 b6) by (auto; rewrite ?A6, ?B6, ?A5, ?B5, ?A4, ?B4, ?A3, ?B3, ?A2, ?B2, ?A1, ?B1, ?La, ?Lb; reflexivity).
-  set (a7 := ntt_blocks 64 2 63 a6) in *. set (b7 := ntt_blocks 64 2 63 b6) in *.
-  rewrite (ntt_blocks_add 128 1 127 a7 b7) by (auto; rewrite ?A7, ?B7, ?A6, ?B6, ?A5, ?B5, ?A4, ?B4, ?A3, ?B3, ?A2, ?B2, ?A1, ?B1, ?La, ?Lb; reflexivity).
-  reflexivity.
-Qed.
-
-Lemma map_mul_add z : 0 <= z < q -> forall a b, length a = length b -> canon a -> canon b ->
-  map (k_mul z) (map2 k_add a b) = map2 k_add (map (k_mul z) a) (map (k_mul z) b).
-Proof.
-  intros Hz. induction a as [|x a IH]; intros b L Ca Cb; destruct b; simpl in L; try discriminate; [reflexivity|].
-  inv_canon. cbn [map map2]. f_equal; [apply lin_mul; auto | apply IH; auto].
-Qed.
-
+Proof. apply (ntt_lin k_add). exact lin_ok_add. Qed.
 Theorem intt_add a b : length a = 256%nat -> length b = 256%nat -> canon a -> canon b ->
   intt (padd a b) = padd (intt a) (intt b).
+Proof. apply (intt_lin k_add). exact lin_ok_add. Qed.
+Theorem ntt_sub a b : length a = 256%nat -> length b = 256%nat -> canon a -> canon b ->
+  ntt (psub a b) = psub (ntt a) (ntt b).
+Proof. apply (ntt_lin k_sub). exact lin_ok_sub. Qed.
+Theorem intt_sub a b : length a = 256%nat -> length b = 256%nat -> canon a -> canon b ->
+  intt (psub a b) = psub (intt a) (intt b).
+Proof. apply (intt_lin k_sub). exact lin_ok_sub. Qed.
+
+(* lengths and canonicity of the transforms *)
+Lemma ntt_props p : length p = 256%nat -> canon p -> length (ntt p) = 256%nat /\ canon (ntt p).
 Proof.
-  intros La Lb Ca Cb. rewrite !intt_unfold. unfold padd.
-  set (a0 := a) in *. set (b0 := b) in *.
-  assert (A0 : length a0 = 256%nat) by exact La. assert (B0 : length b0 = 256%nat) by exact Lb.
-  assert (A0c : canon a0) by exact Ca. assert (B0c : canon b0) by exact Cb.
-  rewrite (intt_blocks_add 128 1 256 a0 b0) by (auto; rewrite ?A0, ?B0; reflexivity).
-  destruct (intt_blocks_props 128 1 256 a0) as [A1' A1c]; [rewrite A0; reflexivity | auto |].
-  destruct (intt_blocks_props 128 1 256 b0) as [B1' B1c]; [rewrite B0; reflexivity | auto |].
-  set (a1 := intt_blocks 128 1 256 a0) in *. set (b1 := intt_blocks 128 1 256 b0) in *.
+  intros Hl Hc. rewrite ntt_unfold.
+  set (a0 := p) in *. assert (A0 : length a0 = 256%nat) by exact Hl. assert (A0c : canon a0) by exact Hc.
+  destruct (ntt_blocks_props 1 128 0 a0) as [A1' A1c]; [rewrite A0; reflexivity | auto |].
+  set (a1 := ntt_blocks 1 128 0 a0) in *.
   assert (A1 : length a1 = 256%nat) by (rewrite A1'; exact A0).
-  assert (B1 : length b1 = 256%nat) by (rewrite B1'; exact B0).
-  rewrite (intt_blocks_add 64 2 128 a1 b1) by (auto; rewrite ?A1, ?B1; reflexivity).
-  destruct (intt_blocks_props 64 2 128 a1) as [A2' A2c]; [rewrite A1; reflexivity | auto |].
-  destruct (intt_blocks_props 64 2 128 b1) as [B2' B2c]; [rewrite B1; reflexivity | auto |].
-  set (a2 := intt_blocks 64 2 128 a1) in *. set (b2 := intt_blocks 64 2 128 b1) in *.
+  destruct (ntt_blocks_props 2 64 1 a1) as [A2' A2c]; [rewrite A1; reflexivity | auto |].
+  set (a2 := ntt_blocks 2 64 1 a1) in *.
   assert (A2 : length a2 = 256%nat) by (rewrite A2'; exact A1).
-  assert (B2 : length b2 = 256%nat) by (rewrite B2'; exact B1).
-  rewrite (intt_blocks_add 32 4 64 a2 b2) by (auto; rewrite ?A2, ?B2; reflexivity).
-  destruct (intt_blocks_props 32 4 64 a2) as [A3' A3c]; [rewrite A2; reflexivity | auto |].
-  destruct (intt_blocks_props 32 4 64 b2) as [B3' B3c]; [rewrite B2; reflexivity | auto |].
-  set (a3 := intt_blocks 32 4 64 a2) in *. set (b3 := intt_blocks 32 4 64 b2) in *.
+  destruct (ntt_blocks_props 4 32 3 a2) as [A3' A3c]; [rewrite A2; reflexivity | auto |].
+  set (a3 := ntt_blocks 4 32 3 a2) in *.
   assert (A3 : length a3 = 256%nat) by (rewrite A3'; exact A2).
-  assert (B3 : length b3 = 256%nat) by (rewrite B3'; exact B2).
-  rewrite (intt_blocks_add 16 8 32 a3 b3) by (auto; rewrite ?A3, ?B3; reflexivity).
-  destruct (intt_blocks_props 16 8 32 a3) as [A4' A4c]; [rewrite A3; reflexivity | auto |].
-  destruct (intt_blocks_props 16 8 32 b3) as [B4' B4c]; [rewrite B3; reflexivity | auto |].
-  set (a4 := intt_blocks 16 8 32 a3) in *. set (b4 := intt_blocks 16 8 32 b3) in *.
+  destruct (ntt_blocks_props 8 16 7 a3) as [A4' A4c]; [rewrite A3; reflexivity | auto |].
+  set (a4 := ntt_blocks 8 16 7 a3) in *.
   assert (A4 : length a4 = 256%nat) by (rewrite A4'; exact A3).
-  assert (B4 : length b4 = 256%nat) by (rewrite B4'; exact B3).
-  rewrite (intt_blocks_add 8 16 16 a4 b4) by (auto; rewrite ?A4, ?B4; reflexivity).
-  destruct (intt_blocks_props 8 16 16 a4) as [A5' A5c]; [rewrite A4; reflexivity | auto |].
-  destruct (intt_blocks_props 8 16 16 b4) as [B5' B5c]; [rewrite B4; reflexivity | auto |].
-  set (a5 := intt_blocks 8 16 16 a4) in *. set (b5 := intt_blocks 8 16 16 b4) in *.
+  destruct (ntt_blocks_props 16 8 15 a4) as [A5' A5c]; [rewrite A4; reflexivity | auto |].
+  set (a5 := ntt_blocks 16 8 15 a4) in *.
   assert (A5 : length a5 = 256%nat) by (rewrite A5'; exact A4).
-  assert (B5 : length b5 = 256%nat) by (rewrite B5'; exact B4).
-  rewrite (intt_blocks_add 4 32 8 a5 b5) by (auto; rewrite ?A5, ?B5; reflexivity).
-  destruct (intt_blocks_props 4 32 8 a5) as [A6' A6c]; [rewrite A5; reflexivity | auto |].
-  destruct (intt_blocks_props 4 32 8 b5) as [B6' B6c]; [rewrite B5; reflexivity | auto |].
-  set (a6 := intt_blocks 4 32 8 a5) in *. set (b6 := intt_blocks 4 32 8 b5) in *.
+  destruct (ntt_blocks_props 32 4 31 a5) as [A6' A6c]; [rewrite A5; reflexivity | auto |].
+  set (a6 := ntt_blocks 32 4 31 a5) in *.
   assert (A6 : length a6 = 256%nat) by (rewrite A6'; exact A5).
-  assert (B6 : length b6 = 256%nat) by (rewrite B6'; exact B5).
-  rewrite (intt_blocks_add 2 64 4 a6 b6) by (auto; rewrite ?A6, ?B6; reflexivity).
-  destruct (intt_blocks_props 2 64 4 a6) as [A7' A7c]; [rewrite A6; reflexivity | auto |].
-  destruct (intt_blocks_props 2 64 4 b6) as [B7' B7c]; [rewrite B6; reflexivity | auto |].
-  set (a7 := intt_blocks 2 64 4 a6) in *. set (b7 := intt_blocks 2 64 4 b6) in *.
+  destruct (ntt_blocks_props 64 2 63 a6) as [A7' A7c]; [rewrite A6; reflexivity | auto |].
+  set (a7 := ntt_blocks 64 2 63 a6) in *.
   assert (A7 : length a7 = 256%nat) by (rewrite A7'; exact A6).
-  assert (B7 : length b7 = 256%nat) by (rewrite B7'; exact B6).
-  rewrite (intt_blocks_add 1 128 2 a7 b7) by (auto; rewrite ?A7, ?B7; reflexivity).
-  destruct (intt_blocks_props 1 128 2 a7) as [A8' A8c]; [rewrite A7; reflexivity | auto |].
-  destruct (intt_blocks_props 1 128 2 b7) as [B8' B8c]; [rewrite B7; reflexivity | auto |].
-  set (a8 := intt_blocks 1 128 2 a7) in *. set (b8 := intt_blocks 1 128 2 b7) in *.
+  destruct (ntt_blocks_props 128 1 127 a7) as [A8' A8c]; [rewrite A7; reflexivity | auto |].
+  set (a8 := ntt_blocks 128 1 127 a7) in *.
   assert (A8 : length a8 = 256%nat) by (rewrite A8'; exact A7).
-  assert (B8 : length b8 = 256%nat) by (rewrite B8'; exact B7).
-  apply map_mul_add; auto; [unfold q; vm_compute; split; congruence | rewrite A8, B8; reflexivity].
+  split; auto.
+Qed.
+
+Lemma intt_props p : length p = 256%nat -> canon p -> length (intt p) = 256%nat /\ canon (intt p).
+Proof.
+  intros Hl Hc. rewrite intt_unfold.
+  set (a0 := p) in *. assert (A0 : length a0 = 256%nat) by exact Hl. assert (A0c : canon a0) by exact Hc.
+  destruct (intt_blocks_props 128 1 256 a0) as [A1' A1c]; [rewrite A0; reflexivity | auto |].
+  set (a1 := intt_blocks 128 1 256 a0) in *.
+  assert (A1 : length a1 = 256%nat) by (rewrite A1'; exact A0).
+  destruct (intt_blocks_props 64 2 128 a1) as [A2' A2c]; [rewrite A1; reflexivity | auto |].
+  set (a2 := intt_blocks 64 2 128 a1) in *.
+  assert (A2 : length a2 = 256%nat) by (rewrite A2'; exact A1).
+  destruct (intt_blocks_props 32 4 64 a2) as [A3' A3c]; [rewrite A2; reflexivity | auto |].
+  set (a3 := intt_blocks 32 4 64 a2) in *.
+  assert (A3 : length a3 = 256%nat) by (rewrite A3'; exact A2).
+  destruct (intt_blocks_props 16 8 32 a3) as [A4' A4c]; [rewrite A3; reflexivity | auto |].
+  set (a4 := intt_blocks 16 8 32 a3) in *.
+  assert (A4 : length a4 = 256%nat) by (rewrite A4'; exact A3).
+  destruct (intt_blocks_props 8 16 16 a4) as [A5' A5c]; [rewrite A4; reflexivity | auto |].
+  set (a5 := intt_blocks 8 16 16 a4) in *.
+  assert (A5 : length a5 = 256%nat) by (rewrite A5'; exact A4).
+  destruct (intt_blocks_props 4 32 8 a5) as [A6' A6c]; [rewrite A5; reflexivity | auto |].
+  set (a6 := intt_blocks 4 32 8 a5) in *.
+  assert (A6 : length a6 = 256%nat) by (rewrite A6'; exact A5).
+  destruct (intt_blocks_props 2 64 4 a6) as [A7' A7c]; [rewrite A6; reflexivity | auto |].
+  set (a7 := intt_blocks 2 64 4 a6) in *.
+  assert (A7 : length a7 = 256%nat) by (rewrite A7'; exact A6).
+  destruct (intt_blocks_props 1 128 2 a7) as [A8' A8c]; [rewrite A7; reflexivity | auto |].
+  set (a8 := intt_blocks 1 128 2 a7) in *.
+  assert (A8 : length a8 = 256%nat) by (rewrite A8'; exact A7).
+  split; [rewrite map_length; exact A8|].
+  apply canon_map_mul; auto. unfold q. vm_compute. split; congruence.
 Qed.
